@@ -206,7 +206,7 @@ class PoolRun(object):
         ops = [["join"], ["joint"], ["joint0"]]
         if c == 1:
             ops += [["start"], ["stop"], ["clear"]]
-            ops += [["release", t] for t in sorted(self.gated) if t not in self.released]
+        ops += [["release", t] for t in sorted(self.gated) if t not in self.released]
         ops += [["enq", t] for t in range(1, getattr(self, "base_nt", self.nt) + 1) if self.ts[t - 1] == "new" and t not in self.claimed]
         return ops
 
@@ -361,6 +361,11 @@ PROGRAMS = [   # (client 1, client 2) - small programs around start / stop / res
     ([["start"], ["enq", 2], ["clear"], ["enq", 3], ["stop"]], [["enq", 1]]),
     ([["start"], ["stop"], ["start"], ["enq", 2]], [["enq", 1], ["enq", 3]]),
     ([["start"], ["enq", 1], ["enq", 2], ["enq", 3], ["release", 1], ["join"]], []),
+    # a task that ends while stop() is waiting for its worker (the gate is opened by the other client), then a restart
+    ([["start"], ["enq", 1], ["stop"], ["start"], ["enq", 2], ["joint"]], [["release", 1]]),
+    ([["start"], ["enq", 1], ["enq", 2], ["stop"], ["start"], ["enq", 3], ["stop"]], [["release", 1], ["release", 2]]),
+    ([["start"], ["enq", 1], ["clear"], ["enq", 2], ["joint"]], [["release", 1]]),
+    ([["enq", 1], ["enq", 2], ["start"], ["stop"], ["enq", 3], ["start"], ["joint"]], [["release", 1], ["release", 2]]),
     ([["enq", 1], ["enq", 2], ["enq", 3], ["start"], ["release", 1], ["release", 2], ["joint"], ["stop"]], []),
 ]
 
